@@ -86,6 +86,8 @@ func c04Dump(md intoto.Metadata, dir, name string) (string, error) {
 
 // c04CheckAll compares VerifySignature with the model for every pool key, and checks every
 // emitted signature with the independent verifier.
+var staleSeen bool
+
 func c04CheckAll(md intoto.Metadata, model map[string]bool, stale map[string]bool, dir string, step int, want any) error {
 	path, err := c04Dump(md, dir, fmt.Sprintf("state%d.json", step))
 	if err != nil {
@@ -106,10 +108,9 @@ func c04CheckAll(md intoto.Metadata, model map[string]bool, stale map[string]boo
 			continue
 		}
 		if stale[k.Name] {
-			// the legacy wrapper still carries this key's signature over earlier content in front of
-			// any new one; what a re-signature by the same key then yields is outside the stated
-			// quantifier (observation, not asserted)
-			continue
+			// the legacy wrapper still carries this key's signature over earlier content in front of the new
+			// one: signing and then verifying must succeed all the same (any entry of the key may verify)
+			staleSeen = true
 		}
 		verr := md.VerifySignature(k.Pub())
 		if model[k.Name] && verr != nil {
